@@ -238,10 +238,10 @@ Definition local_targets (w : world) (c : calc) (s : spec) : areso :=
     else ALogged.
 
 (* fits of the ships among the targets: {i._fit for i in tgt_items if isinstance(i, Ship)} *)
-Definition tgt_ship_fits (w : world) (tgts : list (option nat)) : list (option nat) :=
+Definition tgt_ship_fits (w : world) (c : calc) (tgts : list (option nat)) : list (option nat) :=
   dedup onat_eqb
         (flat_map (fun t => match t with
-                            | Some i => if is_ship w i then [item_fit w i] else []
+                            | Some i => if is_ship w i && mem neqb (c_affectees c) i then [item_fit w i] else []
                             | None => [] end) tgts).
 
 (* __get_projected_affector_storages *)
@@ -250,7 +250,7 @@ Definition projected_targets (w : world) (c : calc) (s : spec) (tgts : list (opt
     AOk (flat_map (fun t => match t with
                             | Some i => if mem neqb (c_affectees c) i then [TActive (KItem i)] else []
                             | None => [] end) tgts)
-  else filter_targets w s ModDomain_ship (tgt_ship_fits w tgts).
+  else filter_targets w s ModDomain_ship (tgt_ship_fits w c tgts).
 
 Definition add_spec (c : calc) (t : atarget) (s : spec) : calc :=
   match t with
@@ -320,7 +320,7 @@ Definition projected_affectees (w : world) (c : calc) (s : spec) (tgts : list (o
                                    | Some i => if mem neqb (c_affectees c) i then [i] else []
                                    | None => [] end) tgts)
   else
-    match filter_targets w s ModDomain_ship (tgt_ship_fits w tgts) with
+    match filter_targets w s ModDomain_ship (tgt_ship_fits w c tgts) with
     | AOk l => dedup neqb (flat_map (fun t => match t with
                                               | TStor st k => ks_get akey_eqb (ae_get c st) k
                                               | _ => [] end) l)
@@ -374,7 +374,9 @@ Definition unregister_projector (w : world) (c : calc) (p : proj) : option calc 
   let c := c_set_projectors c (set_rm proj_eqb (c_projectors c) p) in
   match solsys_carrier w (pj_item p) with
   | CarFail => None
-  | CarOk (Some car) => Some (c_set_carrier c (ks_rm_entry neqb proj_eqb (c_carrier c) car p))
+  | CarOk (Some car) =>
+    let c := c_set_carrier c (ks_rm_entry neqb proj_eqb (c_carrier c) car p) in
+    Some (c_set_carrierless c (set_rm proj_eqb (c_carrierless c) p))
   | CarOk None => Some (c_set_carrierless c (set_rm proj_eqb (c_carrierless c) p))
   end.
 
@@ -382,13 +384,11 @@ Definition apply_projector (c : calc) (p : proj) (tgts : list (option nat)) : ca
   let c := c_set_ptgts c (ks_add_set proj_eqb onat_eqb (c_ptgts c) p tgts) in
   fold_left (fun c t => c_set_tgtp c (ks_add_entry onat_eqb proj_eqb (c_tgtp c) t p)) tgts c.
 
-(* [aliased]: the message's tgt_items IS the register's own set object, so
-   rm_data_set empties it before the loop over tgt_items runs (the loop then
-   sees nothing and __tgt_projectors is not cleaned) *)
+(* tgt_items is copied first, so it does not matter whether the caller passed
+   the register's own set object ([aliased] is kept in the message only) *)
 Definition unapply_projector (c : calc) (p : proj) (tgts : list (option nat)) (aliased : bool) : calc :=
   let c := c_set_ptgts c (ks_rm_set proj_eqb onat_eqb (c_ptgts c) p tgts) in
-  if aliased then c
-  else fold_left (fun c t => c_set_tgtp c (ks_rm_entry onat_eqb proj_eqb (c_tgtp c) t p)) tgts c.
+  fold_left (fun c t => c_set_tgtp c (ks_rm_entry onat_eqb proj_eqb (c_tgtp c) t p)) tgts c.
 
 (* register_solsys_item: carrierless projectors whose carrier is now this item *)
 Definition register_solsys_item (w : world) (c : calc) (i : nat) : option calc :=
